@@ -52,6 +52,8 @@ func genC12(rng *rand.Rand, tier string) *core.Plan {
 	return p
 }
 
+var strangerDB string
+
 type layoutDef struct {
 	name string
 	r    *run
@@ -74,6 +76,12 @@ func runC12(c *core.RunCtx) {
 			return
 		}
 		r.genSeries()
+	}
+	// a database that never receives a point: the storage of a node that has never seen the metric
+	strangerDB = "e" + tag
+	if err := n.CreateDB(strangerDB, 1); err != nil {
+		c.Anomaly("create db: %v", err)
+		return
 	}
 	for i, op := range c.Plan.Ops {
 		if c.Violated() || c.Res.Anomaly != "" {
@@ -130,6 +138,7 @@ func queryC12(c *core.RunCtx, ra, rk *run, op core.Op) {
 		{fmt.Sprintf("%d shards on one leaf", k), rk, Layout{Leaves: [][]int{all}, Delay: delay}},
 		{fmt.Sprintf("%d shards on leaves %v", k, part), rk, Layout{Leaves: part, Delay: delay}},
 	}
+	layouts = append(layouts, layoutDef{fmt.Sprintf("%d shards on leaves %v plus a node that never saw the metric", k, part), rk, Layout{Leaves: part, Delay: delay, StrangerDB: strangerDB}})
 	if len(q.groupBy) > 0 {
 		layouts = append(layouts, layoutDef{fmt.Sprintf("%d shards on leaves %v through an intermediate node", k, part), rk, Layout{Leaves: part, Intermediate: true, Delay: delay}})
 		layouts = append(layouts, layoutDef{"one shard through an intermediate node", ra, Layout{Leaves: [][]int{{0}}, Intermediate: true, Delay: delay}})
